@@ -1,4 +1,4 @@
-CONSTANTS L = 7 MaxSid = 4 Chunks = {0, 1, 2} Lims = {"n1", "n2", "s15"}
+CONSTANTS L = 7 MaxSid = 4 Chunks = {0, 1, 2} Lims = {"n1", "n2", "s15"} UseQ = TRUE
 SPECIFICATION Spec
 INVARIANT EmitScen
 CHECK_DEADLOCK FALSE
